@@ -36,6 +36,9 @@ CHECKS = {
  "C06": ("exploration", "bounded-exhaustive enumeration of workspace trees x Finalize option sets, each image read back with the real reader and with an independent ECMA-119 PVD walker",
          "Every ordered forest with <= 4 nodes and height <= 3 over colliding/long/non-ASCII names and sizes around the sector size, plus fixed shapes (deep chains, 300-entry directory, multi-MiB file, 8.3 collision groups, exact-sector-fit directories, sector-multiple files next to sub-directories), x {plain, RockRidge, Joliet, both} x block size x start offset x volume identifier; directories, names (exact under RR/Joliet, documented upper-case 8.3 mapping otherwise) and bytes must equal the source, and the independent reader must find the same files at non-overlapping extents inside the volume space.",
          "isock defines what the PVD tree contains; two defect classes (Joliet without Rock Ridge; block size > 2048) are listed as known findings", "DESIGN.md §3 C06"),
+ "C07": ("exploration", "bounded-exhaustive enumeration of workspace trees x compressor/option sets, each image read back with the real reader and compared entry by entry; superblock checked against the device write log",
+         "Every ordered forest with <= 4 nodes over colliding names and sizes around the block size with zero-run/compressible/incompressible contents, plus symlinks (relative, absolute, dangling, long), mixed-compressibility files, a 2000-entry directory, 530 fragment tails (> 512 fragment blocks) and a sparse file, x {default, gzip-9, xz, lz4, zstd} x fragments on/off x NoCompress*/NoPad x block size 4 KiB/128 KiB/1 MiB x cache size {default, 0, one block} x start {0, 1 MiB}. Comparing every option set against the same source makes the views identical across option sets; bytes_used must equal the highest byte written (modulo 4 KiB padding) and the table starts must be ordered and inside.",
+         "write log of memdev gives the bytes actually written", "DESIGN.md §3 C07"),
  "C02": ("exploration", "bounded-exhaustive enumeration of table inputs executed on the real Write/Read + independent on-disk parser",
          "Every table of a spelled-out finite cross product (entries, indices, spellings, geometries, names, attributes, types, disk sizes, sector sizes, PMBR, prior content) is written by the real code and compared via gpt.Read/mbr.Read, partition.Read, Disk.GetPartition and an independent UEFI-spec parser; exhaustive over that domain, says nothing outside it.",
          "memdev in-memory device; gptck (independent parser written from the UEFI spec) defines on-disk validity", "DESIGN.md §3 C02"),
